@@ -28,7 +28,11 @@ VECTOR = ('svg', 'eps', 'pdf', 'tex')
 
 
 def tasks(tier, seed):
-    ts = [Task('matrix_to_lines', MOD, 'task_matrix_to_lines', (), fuc=['segno.utils.matrix_to_lines'])]
+    ts = [Task('matrix_to_lines', MOD, 'task_matrix_to_lines', (), fuc=['segno.utils.matrix_to_lines']),
+          Task('colour_values', MOD, 'task_colour_values', (), backend='ground',
+               fuc=['segno.writers._color_to_rgba', 'segno.writers._color_to_rgb_or_rgba', 'segno.writers._hex_to_rgb_or_rgba', 'segno.writers._alpha_value',
+                    'segno.writers._color_to_webcolor', 'segno.writers._NAME2RGB']),
+          Task('colour_tuples', MOD, 'task_colour_tuples', (), fuc=['segno.writers._color_to_rgba'])]
     n = 2 if tier == 'quick' else 25
     for k in range(16):
         ts.append(Task('bounded_vector[%d]' % k, MOD, 'task_bounded_vector', (seed, k, n), backend='bounded',
@@ -212,3 +216,105 @@ def _one(I, RV, qr, kind, scale, border, ckw, dark, light, opts):
 PINNED = [
     ('F-C10-pdf-info-object-endofbj', lambda p, w: w['kind'] == 'pdf' and 'endofbj' in p),
 ]
+
+
+# ------------------------------------------------------------------ colour values ("in the requested colour"): exhaustive lemmas over the finite domains
+def task_colour_values(I):
+    """the colour a document names is the colour that was requested: alpha values 0..255 (all), #RGB (all 4096), #RRGGBB / #RRGGBBAA (every channel value),
+    every colour name against the independent SVG / CSS table, and the web colour written for a tuple parses back to the tuple"""
+    import segno.writers as W
+    from spec import readers_vector as RV
+    rp = dict(fn='replay_colour_values')
+    for a in range(256):
+        got = W._alpha_value(a, True)
+        I.ground('C10.colour.alpha_0_255_as_float_is_a_over_255', isinstance(got, float) and abs(got - a / 255.0) <= 0.005, witness=dict(alpha=a, got=got, want=round(a / 255.0, 4)), replay=rp)
+        I.ground('C10.colour.alpha_0_255_as_int_is_unchanged', W._alpha_value(a, False) == a, witness=dict(alpha=a), replay=rp)
+    for k in range(101):
+        f = k / 100.0
+        I.ground('C10.colour.alpha_float_is_unchanged_resp_times_255', W._alpha_value(f, True) == f and W._alpha_value(f, False) == int(round(f * 255.0)), witness=dict(alpha=f), replay=rp)
+    hexd = '0123456789abcdef'
+    bad = None
+    for r in range(16):
+        for g in range(16):
+            for b in range(16):
+                for spell in ('#' + hexd[r] + hexd[g] + hexd[b], ('#' + hexd[r] + hexd[g] + hexd[b]).upper()):
+                    if tuple(W._color_to_rgb(spell)) != (17 * r, 17 * g, 17 * b):
+                        bad = spell
+    I.ground('C10.colour.hex_RGB_is_each_digit_doubled', bad is None, witness=bad, replay=rp)
+    bad = None
+    for ch in range(3):
+        for v in range(256):
+            vals = [0x12, 0xab, 0x5f]
+            vals[ch] = v
+            spell = '#%02x%02x%02x' % tuple(vals)
+            if tuple(W._color_to_rgb(spell)) != tuple(vals) or tuple(W._color_to_rgb(spell.upper())) != tuple(vals):
+                bad = spell
+            got = W._color_to_rgba(spell + '%02x' % v, alpha_float=False)
+            if tuple(got) != tuple(vals) + (v,):
+                bad = spell + '%02x' % v
+    I.ground('C10.colour.hex_RRGGBB_and_RRGGBBAA_are_the_channel_values', bad is None, witness=bad, replay=rp)
+    names = dict(RV.SVG_COLORS)
+    wrong = [(n, W._NAME2RGB.get(n), v) for n, v in names.items() if n in W._NAME2RGB and tuple(W._NAME2RGB[n]) != tuple(v)]
+    unknown = [n for n in W._NAME2RGB if n not in names]
+    I.ground('C10.colour.names_have_the_SVG_CSS_values', not wrong and not unknown, witness=dict(wrong=wrong[:3], not_css=unknown[:3]), replay=rp)
+    I.ground('C10.colour.all_147_SVG_names_known', all(n in W._NAME2RGB for n in names if n != 'rebeccapurple'), witness=[n for n in names if n not in W._NAME2RGB][:5], replay=rp)
+    # the colour written into SVG / TikZ documents for a tuple is the tuple
+    bad = None
+    for ch in range(3):
+        for v in range(256):
+            vals = [0x12, 0xab, 0x5f]
+            vals[ch] = v
+            for css3 in (True, False):
+                w = W._color_to_webcolor(tuple(vals), allow_css3_colors=css3)
+                back = RV.parse_color(w)
+                if tuple(back)[:3] != tuple(vals):
+                    bad = (tuple(vals), w)
+    I.ground('C10.colour.webcolor_of_a_tuple_parses_back_to_the_tuple', bad is None, witness=bad, replay=rp)
+    bad = None
+    for a in range(256):
+        w = W._color_to_webcolor((10, 20, 30, a), allow_css3_colors=True)
+        if a == 255:
+            ok = tuple(RV.parse_color(w))[:3] == (10, 20, 30)
+        else:
+            back = RV.parse_color(w)
+            alpha = float(back[3]) if len(back) == 4 else 1.0       # two decimals: 254/255 is written as opaque
+            ok = tuple(back)[:3] == (10, 20, 30) and abs(alpha - a / 255.0) <= 0.005
+        if not ok:
+            bad = (a, w)
+        w2 = W._color_to_webcolor((10, 20, 30, a), allow_css3_colors=False)
+        if a != 255:
+            if isinstance(w2, tuple):
+                ok2 = tuple(RV.parse_color(w2[0]))[:3] == (10, 20, 30) and abs(float(w2[1]) - a / 255.0) <= 0.005
+            else:
+                ok2 = tuple(RV.parse_color(w2))[:3] == (10, 20, 30) and abs(1.0 - a / 255.0) <= 0.005
+            if not ok2:
+                bad = (a, w2)
+    I.ground('C10.colour.webcolor_alpha_is_a_over_255', bad is None, witness=bad, replay=rp)
+
+
+def task_colour_tuples(I, prefix='C10'):
+    """(r, g, b) and (r, g, b, a) tuples of ARBITRARY integers: accepted iff every channel is in 0..255, the result is the tuple itself
+    (alpha 255 / 1.0 appended for three channels); otherwise ValueError and nothing else"""
+    f = I.get_function('segno.writers', '_color_to_rgba')
+    for n in (3, 4):
+        def thunk(I):
+            vals = [I.fresh_int(nm, None, None) for nm in ('r', 'g', 'b', 'a')[:n]]
+            I.inputs.update(dict(zip('rgba', vals)))
+            return vals, I.call_function(f, (tuple(vals),), dict(alpha_float=False))
+
+        def post(I, kind, val):
+            if kind == 'raise':
+                I.ground(prefix + '.colour.tuple.only_ValueError', isinstance(val, ValueError), witness=repr(val))
+                vals = [I.inputs[k] for k in 'rgba'[:n]]
+                I.oblige(prefix + '.colour.tuple.refused_only_if_a_channel_is_outside_0_255', s_or(*[s_or(v < 0, v > 255) for v in vals]))
+                return
+            vals, res = val
+            I.oblige(prefix + '.colour.tuple.accepted_only_if_every_channel_is_in_0_255', s_and(*[s_and(v >= 0, v <= 255) for v in vals]))
+            items = list(res.items) if hasattr(res, 'items') and not isinstance(res, dict) else list(res)
+            I.ground(prefix + '.colour.tuple.result_has_four_channels', len(items) == 4, witness=repr(items))
+            if len(items) == 4:
+                I.oblige(prefix + '.colour.tuple.result_is_the_tuple', s_and(*[items[k] == vals[k] for k in range(n)]))
+                if n == 3:
+                    I.oblige(prefix + '.colour.tuple.opaque_alpha_appended', items[3] == 255)
+        I.replay_spec = dict(fn='replay_colour_values')
+        I.explore(thunk, post)
